@@ -647,6 +647,9 @@ class Interp:
                 except TypeError as e:
                     raise PyRaise(TypeError, e.args)
             return b_or(*[self.eq(x, y) for y in cont.items])
+        if isinstance(cont, dict) and isinstance(x, SEnum):
+            # a constant table keyed by Enum members, asked about a symbolic member
+            return b_or(*[self.eq(x, k) for k in cont])
         if isinstance(cont, (SDict, dict)) and isinstance(x, XStr):
             if x.alts is None:
                 raise EngineError(f'contains {cont!r} {x!r}')
